@@ -2,6 +2,7 @@ CONSTANTS
   Dev = {"BugDepthOffByOne"}
   Alphabet <- AlphaTok
   MaxLen = 4
+  Prune = TRUE
   DepthProbe = {0, 1}
 INIT Init
 NEXT Next
